@@ -454,16 +454,17 @@ func errorExits(fn *ssa.Function, errIdx int) []string {
 		if errIdx >= len(res) || core.IsNilConst(res[errIdx]) {
 			continue
 		}
+		src := errSource(res[errIdx])
 		gs := guardsOf(r)
 		if len(gs) == 0 {
-			out = append(out, "always")
+			out = append(out, src+" always")
 			continue
 		}
 		t := exitGuardText(gs[0])
 		if strings.Contains(t, "next(range(") || strings.Contains(t, "phi{") {
 			t = "after the loop"
 		}
-		out = append(out, t)
+		out = append(out, src+" when "+t)
 	}
 	sort.Strings(out)
 	return out
@@ -475,29 +476,29 @@ var errorExitTable = []struct {
 	want          []string
 	why           string
 }{
-	{"C17", "controller/services", "c.GetTLSSecretContent", 1, []string{`checkValidCertPEM != nil`, `get != nil`, `missing lookup "tls.crt"`}, "any other error makes the signer take a valid certificate as missing and request it again on every check"},
-	{"C15", "converters/gateway", "converter.readCertRef", 1, []string{`always`, `certRef.Group != "core"`, `certRef.Kind != "Secret"`}, "a certificate reference of a foreign group or kind must be refused, everything else is the verdict of the cache read"},
-	{"C15", "controller/services", "c.GetTLSSecretPath", 1, []string{`Stat != nil`, `buildResourceName != nil`, `getCertificate != nil`, `getCertificate == nil`, `getContentProtocol#0 != "secret"`}, "a dropped or inverted test lets a missing, foreign or malformed object through (or rejects a good one, which falls back to the default certificate / drops the declaration)"},
-	{"C15", "controller/legacy", "k8scache.GetTLSSecretPath", 1, []string{`GetCertificate != nil`, `GetCertificate == nil`, `Stat != nil`, `buildResourceName != nil`, `getContentProtocol#0 != "secret"`}, "a dropped or inverted test lets a missing, foreign or malformed object through (or rejects a good one, which falls back to the default certificate / drops the declaration)"},
-	{"C15", "controller/services", "c.GetCASecretPath", 2, []string{`Stat != nil`, `Stat != nil`, `buildResourceName != nil`, `getCertificate != nil`, `getCertificate#0.CAFileName == ""`, `getContentProtocol#0 != "secret"`, `getContentProtocol#1 == ""`, `len(Split) > 2`}, "a dropped or inverted test lets a missing, foreign or malformed object through (or rejects a good one, which falls back to the default certificate / drops the declaration)"},
-	{"C15", "controller/legacy", "k8scache.GetCASecretPath", 2, []string{`GetCertificate != nil`, `GetCertificate#0.CAFileName == ""`, `Stat != nil`, `Stat != nil`, `buildResourceName != nil`, `getContentProtocol#0 != "secret"`, `getContentProtocol#1 == ""`, `len(Split) > 2`}, "a dropped or inverted test lets a missing, foreign or malformed object through (or rejects a good one, which falls back to the default certificate / drops the declaration)"},
-	{"C15", "controller/services", "c.GetPasswdSecretContent", 1, []string{`Get != nil`, `buildResourceName != nil`, `getContentProtocol#0 != "secret"`, `getContentProtocol#0 == "file"`, `missing lookup "auth"`}, "a dropped or inverted test lets a missing, foreign or malformed object through (or rejects a good one, which falls back to the default certificate / drops the declaration)"},
-	{"C15", "controller/legacy", "k8scache.GetPasswdSecretContent", 1, []string{`Get != nil`, `buildResourceName != nil`, `getContentProtocol#0 != "secret"`, `getContentProtocol#0 == "file"`, `missing lookup "auth"`}, "a dropped or inverted test lets a missing, foreign or malformed object through (or rejects a good one, which falls back to the default certificate / drops the declaration)"},
-	{"C15", "controller/services", "c.GetDHSecretPath", 1, []string{`Get != nil`, `Stat != nil`, `buildResourceName != nil`, `getContentProtocol#0 != "secret"`, `getDHParam != nil`}, "a dropped or inverted test lets a missing, foreign or malformed object through (or rejects a good one, which falls back to the default certificate / drops the declaration)"},
-	{"C15", "controller/legacy", "k8scache.GetDHSecretPath", 1, []string{`AddOrUpdateDHParam != nil`, `Get != nil`, `Stat != nil`, `buildResourceName != nil`, `getContentProtocol#0 != "secret"`, `missing lookup "dhparam.pem"`}, "a dropped or inverted test lets a missing, foreign or malformed object through (or rejects a good one, which falls back to the default certificate / drops the declaration)"},
-	{"C15", "controller/services", "c.GetService", 1, []string{`buildResourceName != nil`, `buildResourceName == nil`}, "a dropped or inverted test lets a missing, foreign or malformed object through (or rejects a good one, which falls back to the default certificate / drops the declaration)"},
-	{"C15", "controller/legacy", "k8scache.GetService", 1, []string{`buildResourceName != nil`, `buildResourceName == nil`}, "a dropped or inverted test lets a missing, foreign or malformed object through (or rejects a good one, which falls back to the default certificate / drops the declaration)"},
-	{"C15", "controller/services", "c.GetTerminatingPods", 1, []string{`List != nil`, `buildLabelSelector != nil`}, "a dropped or inverted test lets a missing, foreign or malformed object through (or rejects a good one, which falls back to the default certificate / drops the declaration)"},
-	{"C15", "controller/legacy", "k8scache.GetTerminatingPods", 1, []string{`!c.listers.hasPodLister`, `List != nil`, `buildLabelSelector != nil`}, "a dropped or inverted test lets a missing, foreign or malformed object through (or rejects a good one, which falls back to the default certificate / drops the declaration)"},
-	{"C12", "haproxy", "instance.HAProxyUpdate", 0, []string{`&i.options.ReloadQueue == nil`, `WriteBackendMaps != nil`, `WriteFrontendMaps != nil`, `WriteTCPServicesMaps != nil`, `writeConfig != nil`, `writeCrtLists != nil`}, "a failed step that is not reported is never retried: the files on disk and the running process stay behind the model"},
-	{"C12", "haproxy", "instance.Reload", 0, []string{`reloadHAProxy != nil`}, "a failed step that is not reported is never retried: the files on disk and the running process stay behind the model"},
-	{"C12", "haproxy", "instance.writeConfig", 0, []string{`Write != nil`, `Write != nil`, `Write != nil`, `Write == nil`, `WriteOutput != nil`, `WriteOutput != nil`}, "a failed step that is not reported is never retried: the files on disk and the running process stay behind the model"},
-	{"C12", "haproxy", "instance.writeCrtLists", 0, []string{`WriteOutput != nil`}, "a failed step that is not reported is never retried: the files on disk and the running process stay behind the model"},
-	{"C12", "haproxy", "config.WriteFrontendMaps", 0, []string{`WriteOutput != nil`, `writeMaps != nil`}, "a failed step that is not reported is never retried: the files on disk and the running process stay behind the model"},
-	{"C12", "haproxy", "config.WriteBackendMaps", 0, []string{`after the loop`}, "a failed step that is not reported is never retried: the files on disk and the running process stay behind the model"},
-	{"C12", "haproxy", "config.WriteTCPServicesMaps", 0, []string{`after the loop`}, "a failed step that is not reported is never retried: the files on disk and the running process stay behind the model"},
-	{"C12", "haproxy", "writeMaps", 0, []string{`WriteOutput != nil`}, "a failed step that is not reported is never retried: the files on disk and the running process stay behind the model"},
-	{"C17", "controller/legacy", "k8scache.GetTLSSecretContent", 1, []string{`Decode == nil`, `GetSecret != nil`, `ParseCertificate != nil`, `missing lookup "tls.crt"`}, "any other error makes the signer take a valid certificate as missing and request it again on every check"},
+	{"C17", "controller/services", "c.GetTLSSecretContent", 1, []string{`Errorf when checkValidCertPEM != nil`, `Errorf when missing lookup "tls.crt"`, `get when get != nil`}, "any other error makes the signer take a valid certificate as missing and request it again on every check"},
+	{"C15", "converters/gateway", "converter.readCertRef", 1, []string{`Errorf when certRef.Group != "core"`, `Errorf when certRef.Kind != "Secret"`, `GetTLSSecretPath always`}, "a certificate reference of a foreign group or kind must be refused, everything else is the verdict of the cache read"},
+	{"C15", "controller/services", "c.GetTLSSecretPath", 1, []string{`Errorf when getCertificate == nil`, `Errorf when getContentProtocol#0 != "secret"`, `Stat when Stat != nil`, `buildResourceName when buildResourceName != nil`, `getCertificate when getCertificate != nil`}, "a dropped or inverted test lets a missing, foreign or malformed object through (or rejects a good one, which falls back to the default certificate / drops the declaration)"},
+	{"C15", "controller/legacy", "k8scache.GetTLSSecretPath", 1, []string{`Errorf when GetCertificate == nil`, `Errorf when getContentProtocol#0 != "secret"`, `GetCertificate when GetCertificate != nil`, `Stat when Stat != nil`, `buildResourceName when buildResourceName != nil`}, "a dropped or inverted test lets a missing, foreign or malformed object through (or rejects a good one, which falls back to the default certificate / drops the declaration)"},
+	{"C15", "controller/services", "c.GetCASecretPath", 2, []string{`Errorf when getCertificate#0.CAFileName == ""`, `Errorf when getContentProtocol#0 != "secret"`, `Errorf when getContentProtocol#1 == ""`, `Errorf when len(Split) > 2`, `Stat when Stat != nil`, `Stat when Stat != nil`, `buildResourceName when buildResourceName != nil`, `getCertificate when getCertificate != nil`}, "a dropped or inverted test lets a missing, foreign or malformed object through (or rejects a good one, which falls back to the default certificate / drops the declaration)"},
+	{"C15", "controller/legacy", "k8scache.GetCASecretPath", 2, []string{`Errorf when GetCertificate#0.CAFileName == ""`, `Errorf when getContentProtocol#0 != "secret"`, `Errorf when getContentProtocol#1 == ""`, `Errorf when len(Split) > 2`, `GetCertificate when GetCertificate != nil`, `Stat when Stat != nil`, `Stat when Stat != nil`, `buildResourceName when buildResourceName != nil`}, "a dropped or inverted test lets a missing, foreign or malformed object through (or rejects a good one, which falls back to the default certificate / drops the declaration)"},
+	{"C15", "controller/services", "c.GetPasswdSecretContent", 1, []string{`Errorf when getContentProtocol#0 != "secret"`, `Errorf when missing lookup "auth"`, `Get when Get != nil`, `ReadFile when getContentProtocol#0 == "file"`, `buildResourceName when buildResourceName != nil`}, "a dropped or inverted test lets a missing, foreign or malformed object through (or rejects a good one, which falls back to the default certificate / drops the declaration)"},
+	{"C15", "controller/legacy", "k8scache.GetPasswdSecretContent", 1, []string{`Errorf when getContentProtocol#0 != "secret"`, `Errorf when missing lookup "auth"`, `Get when Get != nil`, `ReadFile when getContentProtocol#0 == "file"`, `buildResourceName when buildResourceName != nil`}, "a dropped or inverted test lets a missing, foreign or malformed object through (or rejects a good one, which falls back to the default certificate / drops the declaration)"},
+	{"C15", "controller/services", "c.GetDHSecretPath", 1, []string{`Errorf when getContentProtocol#0 != "secret"`, `Errorf when getDHParam != nil`, `Get when Get != nil`, `Stat when Stat != nil`, `buildResourceName when buildResourceName != nil`}, "a dropped or inverted test lets a missing, foreign or malformed object through (or rejects a good one, which falls back to the default certificate / drops the declaration)"},
+	{"C15", "controller/legacy", "k8scache.GetDHSecretPath", 1, []string{`Errorf when AddOrUpdateDHParam != nil`, `Errorf when getContentProtocol#0 != "secret"`, `Errorf when missing lookup "dhparam.pem"`, `Get when Get != nil`, `Stat when Stat != nil`, `buildResourceName when buildResourceName != nil`}, "a dropped or inverted test lets a missing, foreign or malformed object through (or rejects a good one, which falls back to the default certificate / drops the declaration)"},
+	{"C15", "controller/services", "c.GetService", 1, []string{`Get when buildResourceName == nil`, `buildResourceName when buildResourceName != nil`}, "a dropped or inverted test lets a missing, foreign or malformed object through (or rejects a good one, which falls back to the default certificate / drops the declaration)"},
+	{"C15", "controller/legacy", "k8scache.GetService", 1, []string{`Get when buildResourceName == nil`, `buildResourceName when buildResourceName != nil`}, "a dropped or inverted test lets a missing, foreign or malformed object through (or rejects a good one, which falls back to the default certificate / drops the declaration)"},
+	{"C15", "controller/services", "c.GetTerminatingPods", 1, []string{`List when List != nil`, `buildLabelSelector when buildLabelSelector != nil`}, "a dropped or inverted test lets a missing, foreign or malformed object through (or rejects a good one, which falls back to the default certificate / drops the declaration)"},
+	{"C15", "controller/legacy", "k8scache.GetTerminatingPods", 1, []string{`Errorf when !c.listers.hasPodLister`, `List when List != nil`, `buildLabelSelector when buildLabelSelector != nil`}, "a dropped or inverted test lets a missing, foreign or malformed object through (or rejects a good one, which falls back to the default certificate / drops the declaration)"},
+	{"C12", "haproxy", "instance.HAProxyUpdate", 0, []string{`Errorf when WriteBackendMaps != nil`, `Errorf when WriteFrontendMaps != nil`, `Errorf when WriteTCPServicesMaps != nil`, `Errorf when writeConfig != nil`, `Errorf when writeCrtLists != nil`, `Reload when &i.options.ReloadQueue == nil`}, "a failed step that is not reported is never retried: the files on disk and the running process stay behind the model"},
+	{"C12", "haproxy", "instance.Reload", 0, []string{`Errorf when reloadHAProxy != nil`}, "a failed step that is not reported is never retried: the files on disk and the running process stay behind the model"},
+	{"C12", "haproxy", "instance.writeConfig", 0, []string{`Write when Write != nil`, `Write when Write != nil`, `Write when Write != nil`, `Write/Write/WriteOutput when Write == nil`, `WriteOutput when WriteOutput != nil`, `WriteOutput when WriteOutput != nil`}, "a failed step that is not reported is never retried: the files on disk and the running process stay behind the model"},
+	{"C12", "haproxy", "instance.writeCrtLists", 0, []string{`WriteOutput when WriteOutput != nil`}, "a failed step that is not reported is never retried: the files on disk and the running process stay behind the model"},
+	{"C12", "haproxy", "config.WriteFrontendMaps", 0, []string{`WriteOutput when WriteOutput != nil`, `writeMaps when writeMaps != nil`}, "a failed step that is not reported is never retried: the files on disk and the running process stay behind the model"},
+	{"C12", "haproxy", "config.WriteBackendMaps", 0, []string{`writeMaps when after the loop`}, "a failed step that is not reported is never retried: the files on disk and the running process stay behind the model"},
+	{"C12", "haproxy", "config.WriteTCPServicesMaps", 0, []string{`writeMaps when after the loop`}, "a failed step that is not reported is never retried: the files on disk and the running process stay behind the model"},
+	{"C12", "haproxy", "writeMaps", 0, []string{`WriteOutput when WriteOutput != nil`}, "a failed step that is not reported is never retried: the files on disk and the running process stay behind the model"},
+	{"C17", "controller/legacy", "k8scache.GetTLSSecretContent", 1, []string{`Errorf when Decode == nil`, `Errorf when ParseCertificate != nil`, `Errorf when missing lookup "tls.crt"`, `GetSecret when GetSecret != nil`}, "any other error makes the signer take a valid certificate as missing and request it again on every check"},
 }
 
 func init() {
@@ -932,4 +933,37 @@ func readerDispatch(c *core.Ctx) {
 			c.Check(nFile >= 1 && nRes == 1, pk[0]+"."+name+" has both branches", c.Pos(fn.Pos()), "", fmt.Sprintf("%d file reads, %d name resolutions", nFile, nRes))
 		}
 	}
+}
+
+// errSource names where a returned error value comes from (the call that produced it).
+func errSource(v ssa.Value) string {
+	switch x := v.(type) {
+	case *ssa.Extract:
+		return errSource(x.Tuple)
+	case *ssa.Call:
+		return shortVal(x)
+	case *ssa.Phi:
+		var parts []string
+		seen := map[string]bool{}
+		for _, e := range x.Edges {
+			p := errSource(e)
+			if !seen[p] {
+				seen[p] = true
+				parts = append(parts, p)
+			}
+		}
+		sort.Strings(parts)
+		return strings.Join(parts, "/")
+	case *ssa.MakeInterface:
+		return errSource(x.X)
+	case *ssa.UnOp:
+		return errSource(x.X)
+	case *ssa.Global:
+		return x.Name()
+	case *ssa.Const:
+		return "nil"
+	case *ssa.Alloc:
+		return "err"
+	}
+	return "err"
 }
